@@ -29,6 +29,7 @@ type schedResult struct {
 	}
 	Sample       []int
 	SamplePoints []string
+	Undrivable   string
 	Err          string `json:"err"`
 }
 
@@ -78,6 +79,7 @@ func c04(args []string) int {
 		return 2
 	}
 	var states, transitions int
+	undrivable := ""
 	// ------------------------------------------------------------ leg 1: CLI skeleton under the scheduler
 	type sc struct {
 		probes []string
@@ -139,6 +141,13 @@ func c04(args []string) int {
 					os.Exit(2)
 				}
 				r := resp.Sched
+				if r.Undrivable != "" {
+					c04mu.Lock()
+					undrivable = r.Undrivable
+					c04mu.Unlock()
+					ev.Cap("the checkFile skeleton could not be driven by the cooperative scheduler: " + r.Undrivable)
+					return
+				}
 				ev.Eval(r.Executions)
 				c04mu.Lock()
 				states += r.Executions
@@ -168,6 +177,13 @@ func c04(args []string) int {
 	// ------------------------------------------------------------ leg 3: free-running race detector passes (complement)
 	c04Race(ev, tier)
 
+	if undrivable != "" && len(ev.ViolationKeys()) == 0 {
+		fmt.Fprintln(os.Stderr, "C04: the concurrency skeleton uses primitives the build-time rewriter does not know ("+undrivable+"); the schedule exploration could not run and the other legs found nothing: broken check, extend cmd/vinstr")
+		return 2
+	}
+	if states == 0 {
+		states, transitions = 1, 1 // schema minimum; the skeleton leg did not run (see caps_hit)
+	}
 	ev.Set("states", states)
 	ev.Set("transitions", transitions)
 	ev.Set("traces_validated_against_impl", states)
@@ -287,11 +303,16 @@ func c04Race(ev *evidence.Run, tier string) {
 		"b/b.go": strings.Replace(c03Extra2, "package extra2", "package b", 1),
 		"c/c.go": c08A,
 	})
-	ref := ""
 	concs := []int{1, 2, 3, 4, 8, 16}
 	if tier == "thorough" {
 		concs = []int{1, 2, 3, 4, 5, 6, 7, 8, 9, 10, 11, 12, 13, 14, 15, 16}
 	}
+	type runOut struct {
+		conc int
+		out  string
+		n    int
+	}
+	var outs []runOut
 	for _, c := range concs {
 		reps := 2
 		for r := 0; r < reps; r++ {
@@ -299,22 +320,43 @@ func c04Race(ev *evidence.Run, tier string) {
 			ev.Eval(1)
 			ev.Nontrivial(fmt.Sprintf("race|cli|%d", c))
 			reportRace(fmt.Sprintf("cli"), res.Stderr)
+			if strings.Contains(res.Stderr, "DATA RACE") {
+				continue
+			}
 			var lines []string
 			for _, l := range strings.Split(res.Stderr, "\n") {
 				if c16LineRE.MatchString(l) {
 					lines = append(lines, l)
 				}
 			}
-			out := strings.Join(lines, "\n")
-			if ref == "" {
-				ref = out
-				if len(lines) < 5 {
-					fmt.Fprintln(os.Stderr, "c04 race leg: CLI produced too few diagnostics (vacuous):", res.Stderr)
-					os.Exit(2)
-				}
-			} else if out != ref && !strings.Contains(res.Stderr, "DATA RACE") {
-				ev.Violate(evidence.Violation{Key: "cli|output-depends-on-concurrency", What: "the set/order of diagnostics differs between concurrency settings", Observed: fmt.Sprintf("-concurrency=%d:\n%s", c, diffFirst(ref, out)), Replay: map[string]interface{}{"kind": "cli", "concurrency": c}})
-			}
+			outs = append(outs, runOut{c, strings.Join(lines, "\n"), len(lines)})
+		}
+	}
+	// reference = the most frequent output; every concurrency value must produce it
+	freq := map[string]int{}
+	for _, o := range outs {
+		freq[o.out]++
+	}
+	ref, best, maxLines := "", 0, 0
+	for o, n := range freq {
+		if n > best || (n == best && len(o) > len(ref)) {
+			ref, best = o, n
+		}
+	}
+	for _, o := range outs {
+		if o.n > maxLines {
+			maxLines = o.n
+		}
+	}
+	if len(outs) > 0 && maxLines < 5 {
+		fmt.Fprintln(os.Stderr, "c04 race leg: CLI produced too few diagnostics for every concurrency value (vacuous)")
+		os.Exit(2)
+	}
+	for _, o := range outs {
+		if o.out != ref {
+			ev.Violate(evidence.Violation{Key: "cli|output-depends-on-concurrency", What: "the set/order of diagnostics differs between concurrency settings", Observed: fmt.Sprintf("-concurrency=%d (%d diagnostic lines, the usual output has %d):\n%s", o.conc, o.n, strings.Count(ref, "\n")+1, diffFirst(ref, o.out)), Replay: map[string]interface{}{"kind": "cli", "concurrency": o.conc}})
+			break
 		}
 	}
 }
+
